@@ -37,8 +37,18 @@ impl ChainService {
     pub(crate) fn start_process_block(self) {
         let signal_receiver = new_crossbeam_exit_rx();
 
+        #[cfg(not(ckb_verif))]
         let clean_expired_orphan_timer =
             crossbeam::channel::tick(std::time::Duration::from_secs(60));
+        // verification hook: the period of the orphan clean-up timer can be shortened
+        #[cfg(ckb_verif)]
+        let clean_expired_orphan_timer = crossbeam::channel::tick(
+            std::env::var("VERIF_ORPHAN_CLEAN_MS")
+                .ok()
+                .and_then(|ms| ms.parse().ok())
+                .map(std::time::Duration::from_millis)
+                .unwrap_or(std::time::Duration::from_secs(60)),
+        );
 
         loop {
             select! {
